@@ -383,6 +383,9 @@ func (w *World) verifyLemma(l *Lemma) (res *FuncResult) {
 		o := vc.obls[len(vc.obls)-1]
 		o.Extra = append(o.Extra, vc.rvTableAxioms(-1)...)
 	}
+	if l.Raw.TimeoutS > 0 {
+		vc.obls[len(vc.obls)-1].TimeoutMs = l.Raw.TimeoutS * 1000
+	}
 	return res
 }
 
